@@ -4,7 +4,7 @@ import vf
 
 ID = 'C10'
 FLAVORS = ['default', 'noinfo']
-RULE = ('EQ histories over {push(code, text or none, explicit length or 0, allocation failure injected or not), pop, clear, count, SYST:ERR?} for capacities 1..4: '
+RULE = ('EQ histories over {push(code, text or none, explicit length or 0, allocation failure injected or not), pop, clear, count, SYST:ERR?} for capacities 1..4 (and 255, 256, 257, 300 filled beyond capacity; texts ending in CR / LF): '
         'every sequence up to length 4 (quick) / 6 (thorough) over a 9-letter alphabet, plus random histories of up to 60 (quick) / 2000 (thorough) operations; malloc and no-info builds; '
         'LeakSanitizer is on, so a text that is never released fails the run. Non-trivial: a history that overflows or returns a text; distinct = distinct lines.')
 MODELLED = 'fifo.c ring and SCPI_ErrorAddInternal/Pop/Clear/Count are modelled in FifoProof/ErrQueue (allocation = set of live ids with a failure oracle); SCPI_SystemErrorNextQ composes pop with the C18 formatter'
@@ -102,12 +102,23 @@ def streams(tier, rng):
                 k = rng.random()
                 if k < 0.5:
                     has = rng.random() < 0.7
-                    t = bytes(rng.choice(b'abc ";\xe9') for _ in range(rng.choice([0, 1, 3, 10, 100, 254, 255, 256, 300]))) if has else b''
+                    t = bytes(rng.choice(b'abc ";\xe9\r\n') for _ in range(rng.choice([0, 1, 3, 10, 100, 254, 255, 256, 300]))) if has else b''
                     l = rng.choice([0, 0, 0, 1, 2, 5, 300]) if has else 0
                     # "00" is the empty C string (a text that is present but empty), "-" is no text at all (NULL)
                     ops.append('P %d %s %d %d' % (rng.choice([-100, -113, -222, 5, -350, 0, 1234, -32768]), t.hex() if (has and t) else ('00' if has else '-'), l, 1 if rng.random() < 0.15 else 0))
                 else:
                     ops.append(rng.choice(['O', 'O', 'S', 'S', 'C', 'N', 'N']))
             cases.append('|'.join(['EQ %d 16' % cap] + ops))
+        # capacities beyond one byte: more pushes than capacity (distinct codes), counts, then everything popped in order
+        for cap in (255, 256, 257, 300):
+            for extra in (0, 3):
+                ops = ['P %d %s 0 0' % (i + 1, (vf.hx('t%d' % i) if i % 7 == 0 else '-')) for i in range(cap + extra)]
+                ops += ['N'] + [rng.choice(['O', 'S']) if i % 50 == 49 else 'O' for i in range(cap + 1)] + ['N']
+                cases.append('|'.join(['EQ %d 4096' % cap] + ops))
+        # texts that end in (or contain) carriage return / line feed are queued unmodified
+        for t in (b'line\r\n', b'line\n', b'\n', b'\r', b'a\r\nb', b'two\n\n', b'x\r'):
+            for ln in (0, len(t)):
+                for rd in ('O', 'S'):
+                    cases.append('|'.join(['EQ 4 64', 'P -100 %s %d 0' % (t.hex(), ln), 'N', rd, 'N']))
         yield {'name': 'histories-' + flavor, 'flavor': flavor, 'cases': cases, 'oracle': oracle_for(flavor == 'noinfo'),
                'nontrivial': lambda c, o: c if ('o-350' in o or ':' in o) else None}
